@@ -82,8 +82,20 @@ func classifyExits(loop map[*ssa.BasicBlock]bool) []loopExit {
 					t = t.Succs[0]
 				}
 				if len(t.Instrs) > 0 {
-					if _, ok := t.Instrs[len(t.Instrs)-1].(*ssa.Return); ok && !inCycle(t) {
-						e.kind = "return"
+					if ret, ok := t.Instrs[len(t.Instrs)-1].(*ssa.Return); ok && !inCycle(t) {
+						// only an ERROR return is an acceptable early exit: leaving the loop to
+						// return success (break to the function's normal end) skips elements
+						e.kind = "return-nil"
+						rv := RetVals(ret)
+						if n := len(rv); n > 0 {
+							idx, isErr := returnsError(t.Parent().Signature)
+							if isErr && idx < n && !isNilConst(rv[idx]) {
+								e.kind = "return"
+							}
+							if b, isB := constBool(rv[n-1]); isB && !b && !isErr {
+								e.kind = "return" // callbacks reporting failure with false
+							}
+						}
 					}
 				}
 			}
@@ -109,6 +121,8 @@ func (c *Ctx) fullLoop(in ssa.Instruction, allowReturn bool) (bool, string) {
 			if !allowReturn {
 				return false, "the loop can be left by a return at " + c.P.InstrPos(firstPos(e.to))
 			}
+		case "return-nil":
+			return false, "the loop can be left early towards a successful return (not an error) at " + c.P.InstrPos(lastInstr(e.from)) + ": later elements are skipped"
 		default:
 			return false, "the loop has an exit that is neither exhaustion nor an error return, at " + c.P.InstrPos(lastInstr(e.from))
 		}
